@@ -292,6 +292,10 @@ def _bucket(prop, tier, seed, idx):
     b = {"engine": "B", "prop": prop, "model": spec, "freeze": freeze, "loop": loop, "loss": loss}
     if prop == "C12":
         b["freeze_keep_some"] = r.random() < 0.65
+        if freeze and r.random() < 0.3:
+            # process history: the same model, differently frozen (mostly: not frozen), trained first
+            alt = [] if r.random() < 0.6 else [{"node": r.randrange(10**6), "mode": r.choice(["NT", "fn"])}]
+            b["prelude_train"] = {"freeze": alt, "seed": r.randrange(2**31)}
         if freeze and r.random() < 0.15:
             b["post_ops"] = [r.choice(["frozen_leaf_float64", "frozen_leaf_bf16"])]
         if spec["kind"] in ("nested_chain", "chain") and r.random() < 0.85:
@@ -352,6 +356,12 @@ def world_for(prop, tier, seed, idx):
         w["faults"] = _faults(r, hint, box, ["opt_teleport", "opt_teleport", "opt_teleport", "opt_teleport_positive", "opt_teleport_positive", "grad_huge", "opt_signflip"], p_none=0.15)
     if prop == "C11":
         w["faults"] = _faults(r, hint, box, ["opt_teleport", "opt_teleport", "opt_teleport", "opt_teleport", "grad_huge", "opt_signflip"], p_none=0.2)
+        if r.random() < 0.7:
+            # process history around the run (failed / rejected / successful constructions), then the
+            # rejection panel: invalid constructor arguments must be rejected whatever happened before
+            from sim import history_ops
+
+            w["history"] = {"pre": history_ops.draw_history(r), "post": history_ops.draw_history(r), "panel": list(history_ops.PANEL_NAMES)}
     if prop == "C18":
         w["faults"] = []
         if r.random() < 0.35:  # perturbed parameters: one early teleport of modest size
@@ -466,6 +476,22 @@ def shrink_candidates(w):
     pre = w.get("prelude", [])
     for i in range(len(pre)):
         yield mod(prelude=pre[:i] + pre[i + 1 :])
+    if w.get("prelude_train"):
+        c = copy.deepcopy(w)
+        del c["prelude_train"]
+        yield c
+    hist = w.get("history")
+    if hist:
+        for part in ("pre", "post"):
+            for i in range(len(hist[part])):
+                c = copy.deepcopy(w)
+                c["history"][part] = hist[part][:i] + hist[part][i + 1 :]
+                yield c
+        if len(hist["panel"]) > 1:
+            for i in range(len(hist["panel"])):
+                c = copy.deepcopy(w)
+                c["history"]["panel"] = [hist["panel"][i]]
+                yield c
     if w["loop"] == "vi":
         if w["steps"] > 1:
             yield mod(steps=w["steps"] - 1)
